@@ -59,7 +59,7 @@ def boom_from(i):
 KINDS = ['assign', 'emit', 'val', 'str', 'for', 'def', 'call', 'if', 'raise', 'raise_multi', 'semi', 'mlist', 'comment_ex',
          'skip', 'ellipsis', 'nws', 'blank', 'dict', 'none', 'ied', 'try', 'pv', 'while', 'with', 'raise_builtin', 'strrepr',
          'float', 'tuple', 'printmulti', 'escstr', 'forval', 'ifval', 'onlyblank', 'ied_dot', 'print_then_raise', 'raise_noted', 'raise_syntax',
-         'raise_group', 'raise_chained', 'raise_nomsg']
+         'raise_group', 'raise_chained', 'raise_nomsg', 'blank_run', 'blank_edges']
 
 
 def required_cells(tier):
@@ -137,6 +137,11 @@ def gen_example(rng, i, defined):
         src = ['T.append(%d)' % i]
     elif k == 'ied':
         src = ['boom(%d, "detail%d")  # doctest: +IGNORE_EXCEPTION_DETAIL' % (i, i)]
+    elif k == 'blank_run':
+        # two and three empty lines in a row: adjacent <BLANKLINE> markers in the want
+        src = ['print("x%d\\n\\n\\ny\\n\\n\\n\\nz", val(%d))' % (i, i)]
+    elif k == 'blank_edges':
+        src = ['print("\\n\\nmid%d\\n\\n" + str(val(%d)))' % (i, i)]
     elif k == 'raise_noted':
         # notes attached to the exception (PEP 678) are printed under the message line
         src = ['boom_noted(%d, "m%d")' % (i, i)]
